@@ -5,7 +5,7 @@ From Coq Require Import List Arith Bool.
 Import ListNotations.
 From PF Require Import Obj ObjSpec.
 
-Theorem Inv_init : forall r c, Inv (init r c).
+Theorem Inv_init : forall r c a, Inv (init r c a).
 Proof. exact ObjSpec.Inv_init. Qed.
 Print Assumptions Inv_init.
 
@@ -39,5 +39,5 @@ Print Assumptions mutators_take_effect.
 (* non-vacuity: a history mixing the four repaired patterns *)
 Example history_example :
   let ops := [QStrahler 3; QStrahler 0; QMainUp 5; QMain; QRank; MAddPits; QRank; QNnodes; QArea; MSetTransform; QArea; MDumpLoad; QUparea true] in
-  forallb (fun r => match r with (s, _) => true end) (run (init true true) ops) = true /\ Inv (init true true).
+  forallb (fun r => match r with (s, _) => true end) (run (init true true false) ops) = true /\ Inv (init true true false).
 Proof. split; [reflexivity|apply ObjSpec.Inv_init]. Qed.
